@@ -144,6 +144,16 @@ def evalFilesFrom (cur : Env) : List (List Line) → Map → POut
     | .err e _ => .err e m
     | .panic s => .panic s
 
+/-- `ReadWithLookup`: every file is evaluated against the lookup function alone (earlier files are not visible),
+    variables whose name starts with a digit are dropped, later files replace earlier variables -/
+def evalReadFrom (lookup : Env) : List (List Line) → Map → POut
+  | [], m => .ok m
+  | ls :: fs, m =>
+    match evalLines lookup ls with
+    | .ok env => evalReadFrom lookup fs (mergeInto m (env.filter fun kv => !startsWithDigit kv.1))
+    | .err e _ => .err e m
+    | .panic s => .panic s
+
 /-! ## well-formedness: the lines whose concrete syntax is unambiguous -/
 
 def nbAll (ws : Str) : Bool := ws.all isSpaceNB
